@@ -159,27 +159,45 @@ func (C04) RunGo(line string) string {
 		path := scratchFile(".pmtiles")
 		os.WriteFile(path, ab, 0o644)
 		defer os.Remove(path)
-		var outs []string
+		// all answers of one archive are collected first and printed afterwards: a body handed out by the
+		// server must stay what it was while later requests are served (no shared or recycled buffers)
+		type ans struct {
+			st   int
+			body []byte
+			to   string
+			cli  string
+		}
+		var answers []ans
 		for _, qs := range rest[1:] {
 			q, _ := strconv.ParseUint(qs, 10, 64)
 			z, x, y := pmtiles.IDToZxy(q)
-			var s string
+			var a ans
 			res := core.RunWithTimeout(10*time.Second, func() string {
 				st, _, body := srv.Get(context.Background(), fmt.Sprintf("/a/%d/%d/%d.png", z, x, y))
-				if st == 200 {
-					return "srv=200:" + hexs(body)
-				}
-				return fmt.Sprintf("srv=%d", st)
+				a.st, a.body = st, body
+				return ""
 			})
-			s = res
+			a.to = res
 			var buf bytes.Buffer
 			err := pmtiles.Show(discardLogger, &buf, "", path, false, false, false, "", true, int(z), int(x), int(y))
 			if err != nil {
-				s += " cli=err"
+				a.cli = " cli=err"
 			} else {
-				s += " cli=" + hexs(buf.Bytes())
+				a.cli = " cli=" + hexs(buf.Bytes())
 			}
-			outs = append(outs, s)
+			answers = append(answers, a)
+		}
+		var outs []string
+		for _, a := range answers {
+			s := a.to
+			if s == "" {
+				if a.st == 200 {
+					s = "srv=200:" + hexs(a.body)
+				} else {
+					s = fmt.Sprintf("srv=%d", a.st)
+				}
+			}
+			outs = append(outs, s+a.cli)
 		}
 		return strings.Join(outs, " ")
 	}
